@@ -4,7 +4,7 @@ from pv import common
 
 RULE = ("seeded histories (5-60 operations) over a recording computation T hosted on a real Agent with its real "
         "Messaging priority queue, the agent thread being replaced by the harness loop next_msg()/_handle_message(): "
-        "recv(sender, id) from 1-3 senders, start, pause, resume, post(id) by T to a sink computation, step (handle "
+        "recv(sender, id) from 1-3 senders, start, pause, resume, post(id) by T to a sink computation (a third of the posts repeat the content of a recent post), step (handle "
         "one queued message); at the end T is started/resumed and the queue drained; oracle on the recorded history: "
         "every received id handled exactly once, per-sender handling order == reception order, a message held "
         "(received while not started / paused) is handled before any message received after it was first held and "
@@ -36,8 +36,13 @@ def gen_history(rng):
             ops.append(("resume",))
             paused = False
         else:
-            mid += 1
-            ops.append(("post", mid))
+            prev = [o[1] for o in ops if o[0] == "post"]
+            if prev and rng.random() < 0.35:
+                # same content as an earlier post (e.g. the same value sent again): still one delivery per post
+                ops.append(("post", rng.choice(prev[-3:])))
+            else:
+                mid += 1
+                ops.append(("post", mid))
     return {"senders": senders, "ops": ops}
 
 
